@@ -9,7 +9,7 @@ CONSTANTS MaxLen, InitFs
 VARIABLES hist, exp
 vars == <<svars, hist, exp>>
 
-InitFsDef == [p \in Paths |-> IF p = "sub/index.mec" THEN None ELSE "T1"]
+InitFsDef == [p \in Paths |-> IF p \in {"sub/index.mec", "index.html"} THEN None ELSE "T1"]
 
 Ops == {Op("add", p, "-") : p \in Paths}
   \cup {Op("reload", p, "-") : p \in Paths}
@@ -23,7 +23,9 @@ Interesting(s, op) ==
     [] op.o = "remove" -> s.fs[op.p] # None
     [] OTHER -> TRUE
 
-Obs(s, r) == [r |-> r, src |-> s.src, tree |-> s.tree, html |-> s.html, idx |-> s.idx,
+SiblingDef == [p \in Paths |-> IF p = "index.html" THEN "index.mec" ELSE None]
+
+Obs(s, r) == [r |-> r, src |-> s.src, tree |-> s.tree, html |-> [p \in Paths |-> GetHtml(s, p)], hfrom |-> [p \in Paths |-> HtmlFrom(s, p)], idx |-> s.idx,
               isrc |-> IndexSrc(s), codes |-> [t \in Texts |-> t \in s.codes], n |-> Cardinality({p \in Paths : s.src[p] # None})]
 
 Init == /\ SInit /\ fs = InitFs
